@@ -862,3 +862,148 @@ func scopesOK(S []uint64, T []uint64) bool {
 //@   invariant @scopeEnd idx: idx < uint64(len(buf))
 //@   opt termination off
 //@   safe
+
+// ---------------------------------------------------------------------------
+// Strings on the Go side (C16 copy bit, C17 in-range string entries, C05 buffer sizing for the copying kernel)
+
+// S4 in executable form (used when replaying models; in proofs specDecodedLen is an uninterpreted function of the
+// bytes): the scanner starts after the opening quote at buf[1] and returns the decoded length at the closing quote.
+func specHex(c byte) (uint32, bool) {
+	switch {
+	case '0' <= c && c <= '9':
+		return uint32(c - '0'), true
+	case 'a' <= c && c <= 'f':
+		return uint32(c-'a') + 10, true
+	case 'A' <= c && c <= 'F':
+		return uint32(c-'A') + 10, true
+	}
+	return 0, false
+}
+
+func specHex4(b []byte) (uint32, bool) {
+	if len(b) < 4 {
+		return 0, false
+	}
+	var v uint32
+	for i := 0; i < 4; i++ {
+		d, ok := specHex(b[i])
+		if !ok {
+			return 0, false
+		}
+		v = v<<4 | d
+	}
+	return v, true
+}
+
+func specUTF8Len(cp uint32) uint64 {
+	switch {
+	case cp < 0x80:
+		return 1
+	case cp < 0x800:
+		return 2
+	case cp < 0x10000:
+		return 3
+	}
+	return 4
+}
+
+func specScan(buf []byte) (srcLen, dstLen uint64, ok bool) {
+	p, n := 1, uint64(0)
+	for p < len(buf) {
+		c := buf[p]
+		switch {
+		case c == '"':
+			return uint64(p - 1), n, true
+		case c == '\\':
+			if p+1 >= len(buf) {
+				return 0, 0, false
+			}
+			e := buf[p+1]
+			if e == 'u' {
+				h, ok := specHex4(buf[p+2:])
+				if !ok {
+					return 0, 0, false
+				}
+				if h&0xfc00 == 0xd800 {
+					if p+7 >= len(buf) || buf[p+6] != '\\' || buf[p+7] != 'u' {
+						return 0, 0, false
+					}
+					l, ok := specHex4(buf[p+8:])
+					if !ok {
+						return 0, 0, false
+					}
+					cp := ((h<<10 + 0xfca00000) | (l + 0xffff2400)) + 0x10000
+					if cp > 0x10ffff {
+						return 0, 0, false
+					}
+					p += 12
+					n += specUTF8Len(cp)
+				} else {
+					p += 6
+					n += specUTF8Len(h)
+				}
+			} else {
+				switch e {
+				case '"', '\\', '/', 'b', 'f', 'n', 'r', 't':
+					p += 2
+					n++
+				default:
+					return 0, 0, false
+				}
+			}
+		default:
+			p++
+			n++
+		}
+	}
+	return 0, 0, false
+}
+
+func specDecodedLen(buf []byte) uint64 { _, n, _ := specScan(buf); return n }
+
+//@ uninterpreted specDecodedLen
+
+// The scanner kernel (asmvc: _parse_string_validate_only window obligations against S4): on success the source
+// length L it found is the offset of the closing quote, so the quote lies inside buf; the decoded length never
+// exceeds the source length; needCopy is only ever raised.
+//@ func parseStringSimdValidateOnly
+//@   props C04 C05 C16 C17
+//@   trusted asmvc _parse_string_validate_only (window obligations vs S4; the bound argument is not relied upon)
+//@   requires len(buf) >= 64
+//@   assigns *dstLength, *needCopy
+//@   ensures inside: implies(result, *dstLength < uint64(len(buf))-1)
+//@   ensures decoded: implies(result, *dstLength == specDecodedLen(buf))
+//@   ensures nocopyexact: implies(result && !*needCopy, buf[1+*dstLength] == '"')
+//@   ensures monotone: implies(old(*needCopy), *needCopy)
+//@   nonnil maxStringSize dstLength needCopy
+
+// The copying kernel writes the decoded bytes at the end of *stringbuf, storing whole 32-byte words: it needs
+// 32 bytes of slack beyond the decoded length (asm frame obligation, not yet mechanised for _parse_string).
+//@ func parseStringSimd
+//@   props C04 C05 C16 C17
+//@   trusted _parse_string (copying kernel): store frame [len, len+decoded+32) and decoded length as validated
+//@   requires len(buf) >= 64 && stringbuf != nil
+//@   requires slack: uint64(cap(*stringbuf)-len(*stringbuf)) >= specDecodedLen(buf)+32 && specDecodedLen(buf) < 1<<41
+//@   assigns *stringbuf
+//@   ensures grown: len(*stringbuf) >= len(old(*stringbuf)) && len(*stringbuf) <= cap(*stringbuf)
+//@   ensures exact: uint64(len(*stringbuf)) == uint64(len(old(*stringbuf)))+specDecodedLen(buf)
+
+//@ func parseString variant body
+//@   props C16 C17 C05 C04
+//@   requires pj != nil && pj.Strings != nil && idx < uint64(len(pj.Message)) && len(pj.Message) < 1<<40 && len(pj.Strings.B) < 1<<40 && maxStringSize < 1<<40
+//@   ensures copybit: implies(result && needCopy, pj.Tape[len(old(pj.Tape))]&STRINGBUFBIT != 0)
+//@   ensures tag: implies(result, len(pj.Tape) == len(old(pj.Tape))+2 && tagOf(pj.Tape[len(old(pj.Tape))]) == TagString)
+//@   ensures inmessage: implies(result && pj.Tape[len(old(pj.Tape))]&STRINGBUFBIT == 0, payOf(pj.Tape[len(old(pj.Tape))]) == idx+1 && idx+1+pj.Tape[len(old(pj.Tape))+1] <= uint64(len(pj.Message)))
+//@   ensures inbuffer: implies(result && pj.Tape[len(old(pj.Tape))]&STRINGBUFBIT != 0, (payOf(pj.Tape[len(old(pj.Tape))])&STRINGBUFMASK)+pj.Tape[len(old(pj.Tape))+1] <= uint64(len(pj.Strings.B)))
+//@   ensures rejected: implies(!result, len(pj.Tape) == len(old(pj.Tape)))
+//@   safe
+
+//@ func (*ParsedJson).Clone variant fresh
+//@   props C16
+//@   requires dst == nil && pj.Strings != nil
+//@   ensures lens: len(result.Tape) == len(pj.Tape) && len(result.Message) == len(pj.Message) && result.Strings != nil && len(result.Strings.B) == len(pj.Strings.B)
+//@   ensures tape: forall(0, len(pj.Tape), func(j int) bool { return result.Tape[j] == pj.Tape[j] })
+//@   ensures msg: forall(0, len(pj.Message), func(j int) bool { return result.Message[j] == pj.Message[j] })
+//@   ensures strs: forall(0, len(pj.Strings.B), func(j int) bool { return result.Strings.B[j] == pj.Strings.B[j] })
+//@   ensures fresh: !sameSlice(result.Tape, pj.Tape) && !sameSlice(result.Message, pj.Message) && result.Strings != pj.Strings && result.internal == nil
+//@   safe
